@@ -1249,11 +1249,12 @@ Proof.
   destruct (negb (univariate p) || negb (equal_length p) || (k =? 0)%nat
             || (first_len pfit / 2 <? k)%nat) eqn:E; [discriminate|].
   injection H as <-.
+  apply orb_false_iff in E. destruct E as (E & E2). apply orb_false_iff in E. destruct E as (_ & E1).
+  apply Nat.eqb_neq in E1. apply Nat.ltb_ge in E2.
   assert (Hk : (1 <= k <= first_len pfit / 2)%nat) by lia.
   split; [exact Hk|].
   assert (Hn : (1 <= k <= first_len pfit)%nat).
-  { split; [lia|]. pose proof (Nat.div_le_upper_bound (first_len pfit) 2 (first_len pfit)).
-    assert (first_len pfit / 2 <= first_len pfit)%nat by (apply Nat.div_le_upper_bound; lia). lia. }
+  { assert (first_len pfit / 2 <= first_len pfit)%nat by (apply Nat.div_le_upper_bound; lia). lia. }
   apply Forall2_map_in. intros i _.
   split; [reflexivity|]. split.
   - unfold segment. rewrite map_length.
@@ -1274,8 +1275,12 @@ Lemma nonvacuous_example :
   sliding_coded 3 [1; 2; 3] = [[1; 1; 2]; [1; 2; 3]; [2; 3; 3]] /\
   impute ILinear [None; Some 1; None; None; Some 4; None] = 
     [Some 1; Some 1; Some (1 + (2 - 1) / (4 - 1) * (4 - 1)); Some (1 + (3 - 1) / (4 - 1) * (4 - 1));
-     Some 4; Some 4].
+     Some 4; Some 4] /\
+  map (option_map Qred) (impute IDrift [Some 0; None; Some 4]) = [Some 0; Some (4 # 3); Some 4] /\
+  (exists out, iseg_int 3 [[map Qn (seq 0 16)]] [[map Qn (seq 0 16)]] = Ok [out] /\
+               map (@length Q) out = [6; 5; 5]%nat).
 Proof.
   cbv zeta. repeat split; try reflexivity.
-  eexists. split; [reflexivity|]. cbn. lia.
+  - eexists. split; [reflexivity|]. cbn. lia.
+  - eexists. split; [vm_compute; reflexivity|]. reflexivity.
 Qed.
